@@ -23,9 +23,9 @@ func init() {
 			"distinct_nontrivial counts distinct (trips, stop times, presence-pattern set, odd-string classes) signatures of journals with at least one stop time",
 		Cases: func(tier string) int {
 			if tier == "thorough" {
-				return 60000
+				return 400000
 			}
-			return 4000
+			return 30000
 		},
 		Run: runC20,
 		Assumptions: []string{
